@@ -697,7 +697,7 @@ func TestC09(t *testing.T) {
 		case total.pickFresh == 0, total.pickEndgameDup == 0, total.pickStalledDup == 0, total.pickAFChoked == 0,
 			total.pickStealFromWs == 0, total.wsStealFromWs == 0, total.wsAssign == 0, total.seqChecked2 == 0,
 			total.wsStopAtByPeer == 0, total.availNonZeroChecks == 0, rep.TracesImpl == 0:
-			core.HarnessError("C09 vacuous: some scenario class never happened: %+v", total)
+			rep.Vacuous("C09 vacuous: some scenario class never happened: %+v", total)
 		}
 	}
 	pprof.StopCPUProfile()
